@@ -329,20 +329,20 @@ def handleStore (st : St) (args impl : List String) : St × String :=
       | "usable" => finish st s (showStatus (findUsable cbs s)) 0 ["usable"] false
       | "clear" => finish st (clear s) "OK" 0 ["clear"] false
       | "stats" => finish st s (showNats (shardStats s)) 0 ["stats"] false
-      | "fdist" | "odist" =>
+      | "fdist" | "odist" | "fdisti" | "odisti" =>
         match rest with
         | clsT :: obT :: kT :: r2 =>
           match clsT.toNat?, kT.toNat? with
           | some cls, some k =>
             let onlyBaked := obT == "1"
-            if op == "odist" then
+            if op == "odist" || op == "odisti" then
               match natList (kT :: r2) with
               | some (ids, []) =>
                 let (d, e) := ownedDistances cbs s ids cls onlyBaked
                 let (tok, tfl) := traceOk (implTrace impl) st.plan s.n (ids.filterMap (find s)).length
                 if !tok then (st, bad "schedule plan not realised (timeout / wrong trace)") else
                 finish { st with plan := none } s s!"{showDists d} E {e}" 0
-                  (flag (d.length > 0) "results" ++ flag (e > 0) "errors" ++ flag ((ids.filterMap (find s)).length ≥ 2) "owned-multi" ++ tfl ++
+                  (flag (d.length > 0) "results" ++ flag (e > 0) "errors" ++ flag ((ids.filterMap (find s)).length ≥ 2) "owned-multi" ++ tfl ++ flag (op == "odisti") "iterator" ++
                    flag (st.plan.isSome) ("plan-" ++ (st.plan.getD []).headD "")) false
               | _ => (st, bad "odist ids")
             else
@@ -352,7 +352,7 @@ def handleStore (st : St) (args impl : List String) : St × String :=
                 let (tok, tfl) := traceOk (implTrace impl) st.plan s.n cs.length
                 if !tok then (st, bad "schedule plan not realised (timeout / wrong trace)") else
                 finish { st with plan := none } s s!"{showDists d} E {e}" nb
-                  (flag (d.length > 0) "results" ++ flag (e > 0) "errors" ++ flag (cs.length ≥ 2) "multi-cand" ++ flag onlyBaked "only-baked" ++ tfl) false
+                  (flag (d.length > 0) "results" ++ flag (e > 0) "errors" ++ flag (cs.length ≥ 2) "multi-cand" ++ flag onlyBaked "only-baked" ++ tfl ++ flag (op == "fdisti") "iterator") false
               | some (_, _, true) => (st, bad "candidate build fails (generator should avoid)")
               | none => (st, bad "fdist cands")
           | _, _ => (st, bad "dist args")
